@@ -844,7 +844,13 @@ void SessionManager::receive_loop(const PeerId& peer_id, std::shared_ptr<Session
                 record_state(loop_state(drop_state.str()));
                 continue;
             }
-            handler_copy(message);
+            try {
+                handler_copy(message);
+            } catch (const std::exception&) {
+                // Input from a remote peer must never terminate the session thread (and with it the process).
+                record_state(loop_state("stage=message-handler-exception"));
+                continue;
+            }
             std::ostringstream handled_state;
             handled_state << "stage=message-handled size=" << message.payload.size();
             record_state(loop_state(handled_state.str()));
